@@ -959,7 +959,12 @@ class PyvalColorizer:
 
             elif op == sre_constants.SUBPATTERN: #type:ignore[attr-defined]
                 if args[0] is None:
-                    self._output(r'(?:', self.RE_GROUP_TAG, state)
+                    # Non-capturing group, possibly with scoped inline flags: (?aiLmsux-imsx:...)
+                    add_flags, del_flags = args[1], args[2]
+                    flags_str = ''.join(c for (c,n) in sorted(sre_parse36.FLAGS.items()) if (n&add_flags))
+                    if del_flags:
+                        flags_str += '-' + ''.join(c for (c,n) in sorted(sre_parse36.FLAGS.items()) if (n&del_flags))
+                    self._output(f'(?{flags_str}:', self.RE_GROUP_TAG, state)
                 elif args[0] in groups:
                     self._output(r'(?P<', self.RE_GROUP_TAG, state)
                     self._output(groups[args[0]], self.RE_REF_TAG, state)
